@@ -228,6 +228,62 @@ def doBcast (l : Line) : Option String := do
     let dump (b : Nat) := showCList ((List.range n).map (m' b))
     some ("ok parts=" ++ "|".intercalate ((List.range k).map dump) ++ s!" other={dump o}")
 
+/-- `bcasto op=<addE|subE|mulE|divE|rsubE|rdivE> own=<index of the part that is `other`, or -1>
+n=LEN ids=<buffer id of each part: equal ids = the same part object> parts=b0|b1|… other=…` :
+OUT-OF-PLACE power-space broadcasting with `Gen.Broadcast.copyGuardAlways` as extracted.
+`parts` lists the DISTINCT part buffers; `ids` says which buffer each part of `x` is.
+Answers the result parts, the part buffers and the operand afterwards. -/
+def doBcastOut (l : Line) : Option String := do
+  let op ← l.get? "op" >>= parseOp
+  if !(op == .addE || op == .subE || op == .mulE || op == .divE || op == .rsubE || op == .rdivE) then none
+  let own ← l.int? "own"
+  let n ← l.nat? "n"
+  let ids ← l.nats? "ids"
+  let raw ← l.get? "parts"
+  let parts ← (raw.splitOn "|").mapM parseCList
+  let other := (l.crats? "other").getD []
+  let k := parts.length
+  if ids.any (· ≥ k) then none
+  let r := ids.length
+  let junk : List CRat := List.replicate n ⟨77, 0⟩
+  -- buffers: 0..k-1 the distinct parts, k the external operand, k+1..k+r the results, k+r+1 the copy
+  let m := memOf (parts ++ [other] ++ List.replicate (r + 1) junk)
+  let o : Nat := if own < 0 then k else own.toNat
+  if o > k then none
+  let zeroIn (b : Nat) : Bool := (List.range n).any fun i => m b i = 0
+  if (op == .divE && zeroIn o) || (op == .rdivE && ids.any zeroIn) then some "undef:div0entry" else
+  let lc := tensorLC n false
+  let ts := (List.range r).map (· + k + 1)
+  match bcastOut lc (opStepOut lc op) OdlModel.Gen.Broadcast.copyGuardAlways ids ts o (k + r + 1) m with
+  | none => some "raises"
+  | some m' =>
+    let dump (b : Nat) := showCList ((List.range n).map (m' b))
+    some ("ok res=" ++ "|".intercalate (ts.map dump) ++ " parts=" ++
+      "|".intercalate ((List.range k).map dump) ++ s!" other={dump o}")
+
+/-- `pmuldiv f=<mul|div> xs=ids ys=ids os=ids bufs=b0|b1|…` : `ProductSpace._multiply/_divide`
+over leaf parts (a tensor space is the one-leaf case). Answers all buffers afterwards. -/
+def doPMulDiv (l : Line) : Option String := do
+  let f ← l.get? "f"
+  let xs ← l.nats? "xs"
+  let ys ← l.nats? "ys"
+  let os ← l.nats? "os"
+  let raw ← l.get? "bufs"
+  let bufs ← (raw.splitOn "|").mapM parseCList
+  let m := memOf bufs
+  let len (b : Nat) := (bufs.getD b []).length
+  if f == "div" && ys.any (fun y => (List.range (len y)).any fun i => m y i = 0) then
+    some "undef:div0entry" else
+  let r ← match f with
+    | "mul" => some (pmultiply xs ys os m)
+    | "div" => some (pdivide xs ys os m)
+    | _ => none
+  match r with
+  | none => some "err:shape"
+  | some m' =>
+    let outs := (List.range bufs.length).map fun k => showCList ((List.range (len k)).map (m' k))
+    some ("ok bufs=" ++ "|".intercalate outs)
+
 def handle (l : Line) : Option String :=
   match l.op with
   | "lincomb" => doLincomb l
@@ -237,6 +293,8 @@ def handle (l : Line) : Option String :=
   | "plincomb" => doPLincomb l
   | "front" => doFront l
   | "bcast" => doBcast l
+  | "bcasto" => doBcastOut l
+  | "pmuldiv" => doPMulDiv l
   | "leaves" => doLeaves l
   | _ => none
 
